@@ -15,12 +15,14 @@ import (
 	"encoding/json"
 	"fmt"
 	"hash/fnv"
+	"io"
 	"math/rand"
 	"os"
 	"runtime/debug"
 	"sort"
 	"strings"
 	"testing"
+	"time"
 
 	"github.com/icon-project/goloop/block"
 	"github.com/icon-project/goloop/chain/base"
@@ -49,14 +51,21 @@ type damage struct {
 }
 
 type step struct {
-	Op  string            `json:"op"`
-	X   shape             `json:"x"`
-	Y   shape             `json:"y"`
-	Src map[string]string `json:"src"`
-	Dmg damage            `json:"dmg"`
-	Res string            `json:"res"`
-	Bad []string          `json:"bad"`
+	Op   string            `json:"op"`
+	X    shape             `json:"x"`
+	Y    shape             `json:"y"`
+	Src  map[string]string `json:"src"`
+	Dmg  damage            `json:"dmg"`
+	Res  string            `json:"res"`
+	Bad  []string          `json:"bad"`
+	Rd   string            `json:"rd"`
+	Hres string            `json:"hres"`
 }
+
+// streamReader hides Seek and Peek: the bytes arrive as from a connection
+type streamReader struct{ r io.Reader }
+
+func (s streamReader) Read(p []byte) (int, error) { return s.r.Read(p) }
 
 const dsa = "ecdsa/secp256k1"
 
@@ -161,14 +170,33 @@ func hasTx(blk module.Block) bool {
 	return it.Has()
 }
 
+// hung is reported by call when the decoder does not return: the goroutine keeps running (and may keep allocating),
+// so the driver stops after recording the case.
+const hung = "HUNG"
+
 func call(f func() (module.BlockData, error)) (bd module.BlockData, err error, panicked string) {
-	defer func() {
-		if r := recover(); r != nil {
-			panicked = fmt.Sprintf("%v\n%s", r, debug.Stack())
-		}
+	type res struct {
+		bd  module.BlockData
+		err error
+		p   string
+	}
+	ch := make(chan res, 1)
+	go func() {
+		var r res
+		defer func() {
+			if x := recover(); x != nil {
+				r.p = fmt.Sprintf("%v\n%s", x, debug.Stack())
+			}
+			ch <- r
+		}()
+		r.bd, r.err = f()
 	}()
-	bd, err = f()
-	return bd, err, ""
+	select {
+	case r := <-ch:
+		return r.bd, r.err, r.p
+	case <-time.After(3 * time.Second):
+		return nil, nil, hung
+	}
 }
 
 // fieldEnds returns the offsets (relative to the start of the list encoding) at which the top-level items of
@@ -242,7 +270,7 @@ func flipTag(b byte) byte {
 }
 
 func sigOf(s step) string {
-	return fmt.Sprintf("%s|%s|p%s n%s v%s b%s f%s|%s%d", s.X.key(), s.Y.key(), s.Src["ptx"], s.Src["ntx"], s.Src["votes"],
+	return fmt.Sprintf("%s|%s|%s|p%s n%s v%s b%s f%s|%s%d", s.Rd, s.X.key(), s.Y.key(), s.Src["ptx"], s.Src["ntx"], s.Src["votes"],
 		s.Src["btp"], s.Src["nsf"], s.Dmg.Class, s.Dmg.K)
 }
 
@@ -306,6 +334,39 @@ func TestReplay(t *testing.T) {
 		f := X.Clone()
 		for p, src := range s.Src {
 			if src == "X" {
+				continue
+			}
+			garbage := func() []byte {
+				g := make([]byte, 3+crnd.Intn(60))
+				crnd.Read(g)
+				g[0] = 0xf9 // an RLP list header that promises more than there is
+				return g
+			}
+			if src == "G" {
+				switch p {
+				case "ptx":
+					f.BF.PatchTransactions = [][]byte{garbage()}
+				case "ntx":
+					f.BF.NormalTransactions = append(append([][]byte{}, f.BF.NormalTransactions...), garbage())
+				case "votes":
+					f.BF.Votes = garbage()
+				case "btp":
+					// not a digest: random bytes, or a real digest cut short / with a list length that does not fit
+					real := X.BF.BTPDigest
+					if len(real) == 0 {
+						real = Y.BF.BTPDigest
+					}
+					switch v := crnd.Intn(3); {
+					case v == 0 || len(real) < 4:
+						f.BF.BTPDigest = garbage()
+					case v == 1:
+						f.BF.BTPDigest = append([]byte{}, real[:len(real)/2+crnd.Intn(len(real)/2)]...)
+					default:
+						g := append([]byte{}, real...)
+						g[1]--
+						f.BF.BTPDigest = g
+					}
+				}
 				continue
 			}
 			switch p {
@@ -421,14 +482,14 @@ func TestReplay(t *testing.T) {
 				return nil, herr
 			})
 			hid := id + "/HeaderReader"
-			hdet := map[string]interface{}{"behaviour": steps, "via": "NewBlockFromHeaderReader", "spec": s.Res, "real": fmt.Sprint(herr)}
+			hdet := map[string]interface{}{"behaviour": steps, "via": "NewBlockFromHeaderReader", "spec": s.Hres, "real": fmt.Sprint(herr)}
 			switch {
 			case panicked != "":
 				hdet["panic"] = panicked
 				violation(hid, "decode:panic:"+s.Dmg.Class, fmt.Sprintf("NewBlockFromHeaderReader panics on %s: %s", sigOf(s), firstLine(panicked)), hdet)
-			case herr == nil && s.Res == "reject":
+			case herr == nil && s.Hres == "reject":
 				violation(hid, "decode:accepted:"+s.Dmg.Class, fmt.Sprintf("NewBlockFromHeaderReader accepts a header the spec rejects: %s", sigOf(s)), hdet)
-			case herr != nil && s.Res == "ok":
+			case herr != nil && s.Hres == "ok":
 				out.Divergence(hid, fmt.Sprintf("NewBlockFromHeaderReader rejects a header the spec accepts: %s: %v", sigOf(s), herr), hdet)
 			default:
 				out.OK(hid, true, "HeaderReader:"+sigOf(s))
@@ -436,14 +497,24 @@ func TestReplay(t *testing.T) {
 		}
 		for _, via := range []string{"BlockManager", "BlockDataFactory"} {
 			bd, derr, panicked := call(func() (module.BlockData, error) {
-				if via == "BlockManager" {
-					return A.c.Node.BM.NewBlockDataFromReader(bytes.NewReader(stream))
+				var rd io.Reader = bytes.NewReader(stream)
+				if s.Rd == "stream" {
+					rd = streamReader{bytes.NewReader(stream)}
 				}
-				return bdf.NewBlockDataFromReader(bytes.NewReader(stream))
+				if via == "BlockManager" {
+					return A.c.Node.BM.NewBlockDataFromReader(rd)
+				}
+				return bdf.NewBlockDataFromReader(rd)
 			})
 			det := map[string]interface{}{"behaviour": steps, "via": via, "stream": fmt.Sprintf("%x", stream), "spec": s.Res,
 				"real": fmt.Sprint(derr), "x_height": xblk.Height()}
 			cid := id + "/" + via
+			if panicked == hung {
+				out.Violation(cid, "decode:hang:"+mutated(s), fmt.Sprintf("%s.NewBlockDataFromReader does not return within 3 s on %s "+
+					"(the decoder keeps running; the driver stops here)", via, sigOf(s)), det)
+				out.Close(map[string]interface{}{"stopped_after_hang": cid})
+				os.Exit(0)
+			}
 			if panicked != "" {
 				det["panic"] = panicked
 				violation(cid, "decode:panic:"+s.Dmg.Class, fmt.Sprintf("%s.NewBlockDataFromReader panics on %s: %s", via, sigOf(s), firstLine(panicked)), det)
@@ -518,7 +589,7 @@ func mutateHeader(rnd *rand.Rand, h *block.V2HeaderFormat, hEnc []byte, class st
 		}
 		return b
 	}
-	idx := map[string]int{"version": 0, "height": 1, "timestamp": 2, "proposer": 3, "previd": 4, "voteshash": 5,
+	idx := map[string]int{"patchtxhash": 7, "normaltxhash": 8, "version": 0, "height": 1, "timestamp": 2, "proposer": 3, "previd": 4, "voteshash": 5,
 		"nextvalidatorshash": 6, "logsbloom": 9, "result": 10, "nsfilter": 11}
 	parts := strings.Split(class, ":")
 	field, kind := parts[1], parts[2]
@@ -539,6 +610,8 @@ func mutateHeader(rnd *rand.Rand, h *block.V2HeaderFormat, hEnc []byte, class st
 		v = enc(append([]byte{2}, rb(20)...))
 	case "proposer:type255":
 		v = enc(append([]byte{0xff}, rb(20)...))
+	case "version:other":
+		v = enc([]int{0, 1, 3, 4, 77}[rnd.Intn(5)])
 	case "version:long", "height:long", "timestamp:long":
 		v = enc(rb([]int{9, 17, 33}[rnd.Intn(3)])) // an integer is a big-endian byte string: longer than 8 bytes
 	case "nsfilter:odd":
